@@ -41,6 +41,10 @@ type progressEngine struct {
 	summaries map[*types.Func]int
 	active    map[*types.Func]bool
 	unknown   map[string]bool
+	// the loop counter under analysis and the function that holds the loop:
+	// inside that function "the counter itself" is a lower bound for itself
+	counter   types.Object
+	counterFd *ast.FuncDecl
 }
 
 const progressInf = 1 << 20
@@ -383,8 +387,16 @@ func checkLoopProgress(c *core.Ctx, p *load.Prog, rule string, files ...string) 
 				return true
 			}
 			// (b) a bounded counter
-			if v := boundedCounter(info, loop); v != nil {
+			if v, down := boundedCounter(info, loop); v != nil {
+				e.counter, e.counterFd = v, fd
 				assignedElsewhere := false
+				step, back := token.INC, token.DEC
+				stepAssign := token.ADD_ASSIGN
+				if down {
+					step, back = token.DEC, token.INC
+					stepAssign = token.SUB_ASSIGN
+				}
+				_ = back
 				incWeight := func(n ast.Node) int {
 					w := 0
 					ast.Inspect(n, func(m ast.Node) bool {
@@ -393,7 +405,7 @@ func checkLoopProgress(c *core.Ctx, p *load.Prog, rule string, files ...string) 
 							return false
 						case *ast.IncDecStmt:
 							if id, ok := x.X.(*ast.Ident); ok && info.ObjectOf(id) == v {
-								if x.Tok == token.INC {
+								if x.Tok == step {
 									w++
 								} else {
 									assignedElsewhere = true
@@ -402,7 +414,7 @@ func checkLoopProgress(c *core.Ctx, p *load.Prog, rule string, files ...string) 
 						case *ast.AssignStmt:
 							for li, l := range x.Lhs {
 								if id, ok := l.(*ast.Ident); ok && info.ObjectOf(id) == v {
-									if x.Tok == token.ADD_ASSIGN {
+									if x.Tok == stepAssign {
 										if tv := info.Types[x.Rhs[0]]; tv.Value != nil && tv.Value.String() != "0" && !strings.HasPrefix(tv.Value.String(), "-") {
 											w++
 											continue
@@ -410,8 +422,21 @@ func checkLoopProgress(c *core.Ctx, p *load.Prog, rule string, files ...string) 
 									}
 									// v = F(…v…) where F returns an index that is never below
 									// the one it was given: the counter does not go back
-									if len(x.Rhs) == 1 && e.nonDecreasingCall(x.Rhs[0], li, v) {
+									if !down && len(x.Rhs) == 1 && e.nonDecreasingCall(x.Rhs[0], li, v) {
 										continue
+									}
+									// v = X + c, c >= 1, X never below v: strictly forward
+									if !down && x.Tok == token.ASSIGN && len(x.Lhs) == len(x.Rhs) {
+										if be, isB := ast.Unparen(x.Rhs[li]).(*ast.BinaryExpr); isB && be.Op == token.ADD {
+											if cst, isC := constInt(info, be.Y); isC && cst >= 1 && e.atLeast(be.X, v, fd, 0) {
+												w++
+												continue
+											}
+											if cst, isC := constInt(info, be.X); isC && cst >= 1 && e.atLeast(be.Y, v, fd, 0) {
+												w++
+												continue
+											}
+										}
 									}
 									assignedElsewhere = true
 								}
@@ -443,25 +468,93 @@ func checkLoopProgress(c *core.Ctx, p *load.Prog, rule string, files ...string) 
 	c.Count("loops_checked_for_progress", nLoops)
 }
 
-// boundedCounter: the variable v of a loop condition `v < e`, `v <= e`, `v != e`.
-func boundedCounter(info *types.Info, loop *ast.ForStmt) types.Object {
-	if loop.Cond == nil {
-		return nil
+// boundedCounter: the variable v of a loop condition `v < e`, `v <= e`, `v != e`
+// (counting up) or `v > e`, `v >= e` (counting down, second result true). A
+// loop without a condition is bounded by a guard that is a statement of its
+// body: `if v >= e { return … }` / `{ break }`.
+func boundedCounter(info *types.Info, loop *ast.ForStmt) (types.Object, bool) {
+	var cond ast.Expr
+	negate := false
+	if loop.Cond != nil {
+		cond = loop.Cond
+	} else {
+		for _, st := range loop.Body.List {
+			is, ok := st.(*ast.IfStmt)
+			if !ok || is.Init != nil || len(is.Body.List) == 0 {
+				continue
+			}
+			switch last := is.Body.List[len(is.Body.List)-1].(type) {
+			case *ast.ReturnStmt:
+				cond, negate = is.Cond, true
+			case *ast.BranchStmt:
+				if last.Tok == token.BREAK && last.Label == nil {
+					cond, negate = is.Cond, true
+				}
+			}
+			if cond != nil {
+				break
+			}
+			// a statement that may `continue` before the guard is reached
+			// takes the guard off some cycle
+			skips := false
+			ast.Inspect(st, func(n ast.Node) bool {
+				switch x := n.(type) {
+				case *ast.FuncLit, *ast.ForStmt, *ast.RangeStmt:
+					return false
+				case *ast.BranchStmt:
+					if x.Tok == token.CONTINUE || x.Tok == token.GOTO {
+						skips = true
+					}
+				}
+				return true
+			})
+			if skips {
+				break
+			}
+		}
 	}
-	be, ok := ast.Unparen(loop.Cond).(*ast.BinaryExpr)
-	if !ok || (be.Op != token.LSS && be.Op != token.LEQ && be.Op != token.NEQ) {
-		return nil
+	if cond == nil {
+		return nil, false
+	}
+	be, ok := ast.Unparen(cond).(*ast.BinaryExpr)
+	if !ok {
+		return nil, false
+	}
+	op := be.Op
+	if negate {
+		switch op {
+		case token.GEQ:
+			op = token.LSS
+		case token.GTR:
+			op = token.LEQ
+		case token.EQL:
+			op = token.NEQ
+		case token.LEQ:
+			op = token.GTR
+		case token.LSS:
+			op = token.GEQ
+		default:
+			return nil, false
+		}
+	}
+	down := false
+	switch op {
+	case token.LSS, token.LEQ, token.NEQ:
+	case token.GTR, token.GEQ:
+		down = true
+	default:
+		return nil, false
 	}
 	id, ok := ast.Unparen(be.X).(*ast.Ident)
 	if !ok {
-		return nil
+		return nil, false
 	}
 	o := info.ObjectOf(id)
 	if o == nil {
-		return nil
+		return nil, false
 	}
 	if b, isB := o.Type().Underlying().(*types.Basic); !isB || b.Info()&types.IsInteger == 0 {
-		return nil
+		return nil, false
 	}
 	// the bound must not mention the counter
 	bad := false
@@ -472,9 +565,9 @@ func boundedCounter(info *types.Info, loop *ast.ForStmt) types.Object {
 		return true
 	})
 	if bad {
-		return nil
+		return nil, false
 	}
-	return o
+	return o, down
 }
 
 
@@ -502,7 +595,7 @@ func (e *progressEngine) nonDecreasingCall(expr ast.Expr, ri int, v types.Object
 // parameter p): v itself, x' + c with c >= 0 and x' atLeast, or a local with a
 // single definition that is.
 func (e *progressEngine) atLeast(x ast.Expr, v types.Object, fd *ast.FuncDecl, depth int) bool {
-	if depth > 4 {
+	if depth > 10 {
 		return false
 	}
 	x = ast.Unparen(x)
@@ -510,7 +603,7 @@ func (e *progressEngine) atLeast(x ast.Expr, v types.Object, fd *ast.FuncDecl, d
 	case *ast.Ident:
 		o := e.info.ObjectOf(y)
 		if o == v {
-			return fd == nil || e.onlyIncremented(fd, v)
+			return fd == nil || (v == e.counter && fd == e.counterFd) || e.onlyIncremented(fd, v)
 		}
 		if fd == nil {
 			return false
@@ -600,7 +693,7 @@ func (e *progressEngine) onlyIncremented(fd *ast.FuncDecl, o types.Object) bool 
 // resultAtLeastParam: every return of fn that does not report an error yields,
 // as result ri, a value >= the parameter number pi.
 func (e *progressEngine) resultAtLeastParam(fn *types.Func, ri, pi, depth int) bool {
-	if depth > 4 {
+	if depth > 10 {
 		return false
 	}
 	fd := e.p.Decl(fn)
